@@ -560,6 +560,54 @@ mut("c08-dedup-head-tail-len", "C08", "cmd/gts/extract.go",
     "reflect.DeepEqual(rr[i], r)", "rr[i].Head() == r.Head() && rr[i].Tail() == r.Tail() && rr[i].Len() == r.Len()",
     ["DEDUP-EXACT|main.containsRegion"], old2='\t"reflect"\n', new2="")
 
+# ---------------------------------------------------------------- round-4 rules, batch 2
+mut("c14-key9-query-bases", "C14", "cmd/gts/search.go",
+    "\tquerySum := h.Sum(nil)\n",
+    "\th.Reset()\n\tfor _, query := range queries {\n\t\th.Write(query.Bytes())\n\t}\n\tquerySum := h.Sum(nil)\n",
+    ["KEY-9|main.searchFunc|feed#3"], note="the digest of the concatenated bases loses the record boundaries")
+mut("c14-key9-silent-local-bytes", "C14", "cmd/gts/insert.go",
+    "\t\th.Write(guestBytes)\n", "\t\traw := guestBytes\n\t\th.Write(raw)\n", silent=True)
+mut("c14-key10-seekable-stdin", "C14", "cmd/gts/io.go",
+    "\tif d.infile == os.Stdin {\n\t\t// Write to a temporary file to enable seeking.",
+    "\tif d.infile == os.Stdin && len(data) > 0 {\n\t\t// Write to a temporary file to enable seeking.",
+    ["KEY-10|main.ioDelegate.TryCache|hash"])
+mut("c14-key10-silent-flipped", "C14", "cmd/gts/io.go",
+    "\tif d.infile == os.Stdin {\n\t\t// Write to a temporary file to enable seeking.",
+    "\tif os.Stdin == d.infile {\n\t\t// Write to a temporary file to enable seeking.", silent=True)
+mut("c01-reqbuf-dump-lookahead", "C01", "seqio/insdc.go",
+    "\t\tif err := state.Request(len(p)); err != nil {\n\t\t\treturn err\n\t\t}\n\t\tif !bytes.Equal(state.Buffer(), p) {\n\t\t\treturn pars.NewError(fmt.Sprintf(\"expected %q\", prefix+\"/\"), state.Position())\n\t\t}\n\t\tstate.Advance()\n\t\treturn word(state, result)",
+    "\t\tif !bytes.HasPrefix(state.Dump(), p) {\n\t\t\treturn pars.NewError(fmt.Sprintf(\"expected %q\", prefix+\"/\"), state.Position())\n\t\t}\n\t\tif err := pars.Skip(state, len(p)); err != nil {\n\t\t\treturn err\n\t\t}\n\t\treturn word(state, result)",
+    ["REQ-BUF|gts/seqio.qualifierNameParser|dump"])
+mut("c16-residue-range-125", "C16", "seqio/genbank_subparsers.go", "var isBaseCharacter = ascii.Range(33, 126)", "var isBaseCharacter = ascii.Range(33, 125)", ["RESIDUE-CLASS|seqio.isBaseCharacter|set"])
+mut("c16-residue-func-exclusive", "C16", "seqio/genbank_subparsers.go", "var isBaseCharacter = ascii.Range(33, 126)", "func isBaseCharacter(c byte) bool { return spaceByte < c && c < '~' }\n\nvar _ = ascii.Range", ["RESIDUE-CLASS|seqio.isBaseCharacter|set"])
+mut("c16-residue-silent-func", "C16", "seqio/genbank_subparsers.go", "var isBaseCharacter = ascii.Range(33, 126)", "func isBaseCharacter(c byte) bool { return spaceByte < c && c <= '~' }\n\nvar _ = ascii.Range", silent=True, note="the same set written as a function of comparisons")
+mut("c16-shallow-decode-in-place", "C16", "seqio/origin.go", "\t\tq := make([]byte, length)\n\t\toffset, start := 0, 0", "\t\tq := p[:length]\n\t\toffset, start := 0, 0", ["SHALLOW-CACHE|seqio.Origin.Bytes"])
+mut("c15-stale-single", "C15", "cmd/gts/extract.go",
+    "\t\tif *invert {\n\t\t\t// Support linear inversion only as topology is not well defined.\n\t\t\trr = gts.InvertLinear(gts.Regions(rr), gts.Len(seq))\n\t\t}\n\n\t\tfor _, region := range rr {\n\t\t\tif len(rr) == 1 || region.Len() != gts.Len(seq) {",
+    "\t\tsingle := len(rr) == 1\n\t\tif *invert {\n\t\t\t// Support linear inversion only as topology is not well defined.\n\t\t\trr = gts.InvertLinear(gts.Regions(rr), gts.Len(seq))\n\t\t}\n\n\t\tfor _, region := range rr {\n\t\t\tif single || region.Len() != gts.Len(seq) {",
+    ["STALE-VALUE|main.extract|single"])
+mut("c15-stale-silent-seqlen", "C15", "cmd/gts/extract.go",
+    "\t\tfor _, region := range rr {\n\t\t\tif len(rr) == 1 || region.Len() != gts.Len(seq) {",
+    "\t\tseqlen := gts.Len(seq)\n\t\tfor _, region := range rr {\n\t\t\tif len(rr) == 1 || region.Len() != seqlen {",
+    silent=True, note="the record is not re-assigned, so its length may be computed once")
+mut("c15-emit-skip-wrap", "C15", "cmd/gts/split.go",
+    "\t\t\t\thead := splits[i]\n\t\t\t\tsub := gts.Slice(seq, head, tail)",
+    "\t\t\t\thead := splits[i]\n\t\t\t\tif tail <= head {\n\t\t\t\t\tcontinue\n\t\t\t\t}\n\t\t\t\tsub := gts.Slice(seq, head, tail)",
+    ["EMIT-ALL|main.split|emit-loop#1"])
+mut("c15-emit-silent-swapped-filter", "C15", "cmd/gts/extract.go",
+    "if len(rr) == 1 || region.Len() != gts.Len(seq) {", "if region.Len() != gts.Len(seq) || len(rr) == 1 {", silent=True)
+mut("c12-cuts-not-unique", "C12", "cmd/gts/split.go",
+    "\t\t\theads := make([]int, len(unique))\n\t\t\ti := 0\n\t\t\tfor head := range unique {\n\t\t\t\theads[i] = head\n\t\t\t\ti++\n\t\t\t}\n",
+    "\t\t\theads := make([]int, 0, len(rr))\n\t\t\tfor _, r := range rr {\n\t\t\t\theads = append(heads, gts.Min(r.Head(), r.Tail()))\n\t\t\t}\n\t\t\t_ = unique\n",
+    ["UNIQUE-CUTS|main.split|cuts"])
+mut("c19-not-per-selector", "C19", "cmd/gts/select.go",
+    "\t\tfilters[i] = f\n\t}\n\tfilter := gts.Or(filters...)\n\tif *invert {\n\t\tfilter = gts.Not(filter)\n\t}\n",
+    "\t\tif *invert {\n\t\t\tf = gts.Not(f)\n\t\t}\n\t\tfilters[i] = f\n\t}\n\tfilter := gts.Or(filters...)\n",
+    ["NOT-OF-OR|main.select|invert#1"])
+mut("c19-not-silent-named-or", "C19", "cmd/gts/select.go",
+    "\tfilter := gts.Or(filters...)\n\tif *invert {\n\t\tfilter = gts.Not(filter)\n\t}\n",
+    "\tany := gts.Or(filters...)\n\tfilter := any\n\tif *invert {\n\t\tfilter = gts.Not(any)\n\t}\n", silent=True)
+
 if __name__ == "__main__":
     here = os.path.dirname(os.path.abspath(__file__))
     ids = [m["id"] for m in M]
